@@ -62,6 +62,12 @@ pub fn cred_pairs(g: &mut Gen) -> Vec<(Vec<u8>, Vec<u8>)> {
         (long[..121].to_vec(), long[..122].to_vec()),
         (huge.clone(), huge2),
         (b"aliceOprfKey".to_vec(), b"alice".to_vec()),
+        // a long identifier and its digest (pre-hashing of inputs longer than a hash block)
+        (long.clone(), crate::spec::HashAlg::Sha256.hash(&[&long])),
+        (long.clone(), crate::spec::HashAlg::Sha384.hash(&[&long])),
+        (long.clone(), crate::spec::HashAlg::Sha512.hash(&[&long])),
+        (huge.clone(), crate::spec::HashAlg::Sha512.hash(&[&huge])),
+        (vec![9], vec![10]),
     ]
 }
 
@@ -147,6 +153,29 @@ pub fn gen_world(seed: u64, idx: u64, s: &dyn SuiteOps, mode: usize) -> World {
                         WIds { client: respell_u(&mut g, &reg_ids.client), server: respell_s(&mut g, &reg_ids.server) },
                         WIds { client: respell_u(&mut g, &reg_ids.client), server: respell_s(&mut g, &reg_ids.server) },
                     )
+                } else if k % 3 == 1 {
+                    // client and server agree with each other but differ from registration in
+                    // exactly one identity (the other one is kept as registered)
+                    let mut x = reg_ids.clone();
+                    if g.chance(1, 2) {
+                        loop {
+                            let c = classes_u(&mut g, Some(r.record));
+                            if c != reg_ids.client && !(reg_ids.client == IdSpec::Absent && matches!(c, IdSpec::ClientPkOf(_))) {
+                                x.client = c;
+                                break;
+                            }
+                        }
+                    } else {
+                        loop {
+                            let c = classes_s(&mut g, setup);
+                            let same_default = matches!((&reg_ids.server, &c), (IdSpec::Absent, IdSpec::ServerPkOf(_)) | (IdSpec::ServerPkOf(_), IdSpec::Absent));
+                            if c != reg_ids.server && !same_default {
+                                x.server = c;
+                                break;
+                            }
+                        }
+                    }
+                    (x.clone(), x)
                 } else {
                     (
                         WIds { client: classes_u(&mut g, Some(r.record)), server: classes_s(&mut g, setup) },
@@ -241,7 +270,7 @@ pub fn gen_world(seed: u64, idx: u64, s: &dyn SuiteOps, mode: usize) -> World {
             // credential identifier pairs: registration under one, server login under the other
             let pairs = cred_pairs(&mut g);
             let take = 6;
-            let start = (idx as usize * take) % pairs.len();
+            let start = (crate::driver::fnv(s.name().as_bytes()) as usize % pairs.len() + idx as usize * take) % pairs.len();
             for k in 0..take {
                 let (cr, cl) = pairs[(start + k) % pairs.len()].clone();
                 let (r, ops) = b.reg_ops(&mut g, setup, &pw, &pw, &cr, WIds::default(), ksf.clone(), false);
@@ -258,7 +287,7 @@ pub fn gen_world(seed: u64, idx: u64, s: &dyn SuiteOps, mode: usize) -> World {
 
 pub fn run(ctx: &Ctx) -> Report {
     let mut rep = Report::new(
-        "4 world modes per suite: (0) boundary-shifted splits of one string w into (ctx, id_u, id_s) at registration / server login / client login; (1) class triples over absent / explicit-default spelling / empty / short / near-miss identities incl. one-sided ones, and contexts absent/empty/ctx/ctx\\0/cty; (2) lengths 255/256/65535 and crafted twins that would collide under a 1-byte (mod 256) or missing length prefix; (3) 20 credential-identifier pairs (equal, prefix, last-byte, whitespace/NUL/case twins, 57/58, 64/65, 121/122, 200-byte and 70000-byte tails) at registration vs login. Model A decides accept/reject; non-trivial = world contains a predicted rejection; distinct = hash of (suite, op/outcome sequence)",
+        "4 world modes per suite: (0) boundary-shifted splits of one string w into (ctx, id_u, id_s) at registration / server login / client login; (1) class triples over absent / explicit-default spelling / empty / short / near-miss identities incl. one-sided ones, and contexts absent/empty/ctx/ctx\\0/cty; (2) lengths 255/256/65535 and crafted twins that would collide under a 1-byte (mod 256) or missing length prefix; (3) 25 credential-identifier pairs (equal, prefix, last-byte, whitespace/NUL/case twins, 57/58, 64/65, 121/122, 200-byte and 70000-byte tails, long identifier vs its SHA-256/384/512 digest) at registration vs login. Model A decides accept/reject; non-trivial = world contains a predicted rejection; distinct = hash of (suite, op/outcome sequence)",
     );
     let mut suites: Vec<&'static dyn SuiteOps> = SIM_SUITES.to_vec();
     suites.extend(ID_SUITES.iter().step_by(ctx.pick(5, 2)));
